@@ -69,7 +69,7 @@ theorem hwritePlain_ok (w : World) (hw : WFW w) (h : Nat) (bs : Bytes) (hbs : bs
   have hn : 1 ≤ bs.length := by cases bs with | nil => exact absurd rfl hbs | cons _ _ => simp
   cases hx : ((w.file a.file).dd a.slot).ext with
   | none =>
-    have := (hh.new_iff hsp).mpr hx
+    have := hh.new_of_none hsp hx
     rw [hnew] at this; exact absurd this (by decide)
   | some e =>
     obtain ⟨o, l⟩ := e
@@ -83,7 +83,7 @@ theorem hwritePlain_ok (w : World) (hw : WFW w) (h : Nat) (bs : Bytes) (hbs : bs
       rw [if_pos hfail]
       have hww : WFW ((w.setFile a.file (w.file a.file)).setAcc h a) :=
         hw.update a.file hfi (w.file a.file) (hw.files a.file) (hw.coh a.file) h a rfl
-          ⟨hh.live, hh.user, hh.special_iff, hh.new_iff, hh.special_new, hh.blk⟩ (fun _ _ _ _ _ => ⟨rfl, rfl, Iff.rfl⟩)
+          ⟨hh.live, hh.user, hh.special_iff, hh.new_of_none, hh.special_new, hh.blk⟩ (fun _ _ _ _ _ => ⟨rfl, rfl, id⟩)
       exact ⟨hww, abs w, rfl, abs_same_update w a.file hfi h a ha⟩
     · rw [if_neg hfail, if_neg hnoprom]
       have hgrow_case : (¬ (a.appendable = true ∧ (bs.length : Int) + a.posn > l) ∧ a.posn + bs.length ≤ l) ∨
@@ -151,13 +151,14 @@ theorem hwritePlain_ok (w : World) (hw : WFW w) (h : Nat) (bs : Bytes) (hbs : bs
         apply hw.update a.file hfi f' hPW.wfe hC h { a with posn := a.posn + bs.length } rfl
         · refine ⟨(hlive' a.slot).mpr hh.live, by rw [hkey']; exact hh.user, ?_, ?_, hh.special_new, hh.blk⟩
           · show a.special = _; rw [(hshape a.slot hh.live).1]; exact hh.special_iff
-          · intro _
-            show a.newElem = true ↔ _
-            rw [hPW.dd_s, hnew]; simp
+          · intro _ hx'
+            exfalso
+            have : (f'.dd a.slot).ext = none := hx'
+            rw [hPW.dd_s] at this; simp at this
         · intro h' a'' _ ha'' ef
           have := (hw.handles h' a'' ha'').live
           rw [ef] at this
-          exact hshape a''.slot this
+          exact ⟨(hshape a''.slot this).1, (hshape a''.slot this).2.1, (hshape a''.slot this).2.2.mp⟩
       refine ⟨hww, ((abs w).setElem a.file ((w.file a.file).keyOf a.slot)
           (some (some (specWrite ((w.file a.file).bytesAt o l) a.posn bs)))).setHnd h
           (some { file := a.file, key := (w.file a.file).keyOf a.slot, pos := a.posn + bs.length }), ?_, ?_⟩
@@ -243,7 +244,7 @@ theorem hwriteLinked_ok (w : World) (hw : WFW w) (h : Nat) (bs : Bytes) (hbs : b
     · intro h' a'' _ ha'' ef
       have := (hw.handles h' a'' ha'').live
       rw [ef] at this
-      rw [hdd a''.slot this]; exact ⟨rfl, rfl, Iff.rfl⟩
+      rw [hdd a''.slot this]; exact ⟨rfl, rfl, id⟩
   refine ⟨hww, ((abs w).setElem a.file ((w.file a.file).keyOf a.slot)
       (some (some (specWrite ((w.file a.file).linkedBytes li) a.posn bs)))).setHnd h
       (some { file := a.file, key := (w.file a.file).keyOf a.slot, pos := a.posn + bs.length }), ?_, ?_⟩
